@@ -604,26 +604,38 @@ func sdProbeWrites(s *sim, st *sdStats, probed *[2]uint32) {
 	}
 }
 
-// sdOldest picks the parked packet that arrived first (duplicates carry a later key).
+// sdOldest picks the parked packet that was sent first.  Packets written at the same virtual instant by the two sides
+// (timers firing together) are ordered by direction, not by the order in which the goroutines reached the
+// transport, so that a schedule is a deterministic function of its fault plan.  Duplicates carry a later key.
 func sdOldest(s *sim, x *sdExt) (from int, ok bool) {
-	best := -1
+	var best *simPkt
 	for d := 0; d < 2; d++ {
 		if len(s.flight[d]) == 0 {
 			continue
 		}
-		k := sdOrder(x, s.flight[d][0])
-		if best < 0 || k < best {
-			best, from = k, d
+		p := s.flight[d][0]
+		if best == nil || sdBefore(x, p, best) {
+			best, from = p, d
 		}
 	}
-	return from, best >= 0
+	return from, best != nil
 }
 
-func sdOrder(x *sdExt, p *simPkt) int {
-	if k, ok := x.order[p]; ok {
-		return k
+func sdBefore(x *sdExt, p, q *simPkt) bool {
+	kp, dp := x.order[p]
+	kq, dq := x.order[q]
+	switch {
+	case dp && dq:
+		return kp < kq
+	case dp != dq:
+		return dq // a duplicate comes after every original parked now
+	case p.at != q.at:
+		return p.at < q.at
+	case p.from != q.from:
+		return p.from < q.from
+	default:
+		return p.id < q.id
 	}
-	return p.id
 }
 
 // runSdScenario runs one shutdown under one fault plan.  Returns the number of delivery decisions taken and
